@@ -593,12 +593,13 @@ pub fn check(ctx: &mut Ctx) {
 	ctx.run_cases_parallel(&Connections, cyc, 16);
 	ctx.run_sub(&Connections);
 	ctx.run_sub(&GiveUp);
+	ctx.run_sub(&LowLevelServerDrop);
 	ctx.run_sub(&OverTcp);
 	ctx.extra.insert("tcp_inconclusive_cases".into(), json!(TCP_INCONCLUSIVE.load(std::sync::atomic::Ordering::SeqCst)));
 }
 
 pub fn replay(file: &serde_json::Value) -> Option<i32> {
-	replay_with(&Connections, file, "C11").or_else(|| replay_with(&GiveUp, file, "C11")).or_else(|| replay_with(&OverTcp, file, "C11"))
+	replay_with(&Connections, file, "C11").or_else(|| replay_with(&GiveUp, file, "C11")).or_else(|| replay_with(&LowLevelServerDrop, file, "C11")).or_else(|| replay_with(&OverTcp, file, "C11"))
 }
 
 #[allow(dead_code)]
@@ -747,5 +748,79 @@ impl SubCheck for OverTcp {
 				}
 			}
 		}
+	}
+}
+
+// ---------------------------------------------------------------------------------------------
+// low-level `ws::connect`: the server closes a session by dropping the connection future
+// ---------------------------------------------------------------------------------------------
+
+#[derive(Clone, Debug, Serialize, Deserialize)]
+pub struct ServerDropCase {
+	pub limit: u8,
+	/// per session: a gated call is in flight when the server lets go of it
+	pub with_call: Vec<bool>,
+	pub rounds: u8,
+}
+
+pub struct LowLevelServerDrop;
+
+impl SubCheck for LowLevelServerDrop {
+	type Case = ServerDropCase;
+	fn name(&self) -> &'static str {
+		"low-level-server-side-close"
+	}
+	fn cases(&self, tier: Tier) -> u32 {
+		tier.pick(3_000, 60_000)
+	}
+	fn strategy(&self, _tier: Tier) -> BoxedStrategy<ServerDropCase> {
+		(1u8..4, proptest::collection::vec(any::<bool>(), 3), 1u8..4).prop_map(|(limit, with_call, rounds)| ServerDropCase { limit, with_call, rounds }).boxed()
+	}
+	fn run(&self, case: &ServerDropCase, obs: &mut Obs) {
+		let rt = rt();
+		rt.block_on(async {
+			let limit = case.limit.clamp(1, 3) as usize;
+			let fix = Fixture::new(Cfg { max_connections: limit as u32, ..Cfg::default() });
+			let desc = || format!("case={case:?}");
+			let mut tokens = 0;
+			for round in 0..case.rounds {
+				let mut peers = vec![];
+				for k in 0..limit {
+					match fix.ws_lowlevel().await {
+						Ok(mut p) => {
+							if case.with_call.get(k).copied().unwrap_or(false) {
+								tokens += 1;
+								let _ = p.send_text(&format!(r#"{{"jsonrpc":"2.0","id":1,"method":"gated_async","params":["d{tokens}"]}}"#)).await;
+							}
+							peers.push(p);
+						}
+						Err(e) => {
+							obs.fail("c11/attempt-within-limit-refused", format!("round {round}: low-level session #{k} with {k} in use (limit {limit}): {e}; {}", desc()));
+							return;
+						}
+					}
+				}
+				settle().await;
+				obs.check(fix.lowlevel_guard.available_connections() == 0, "c11/slot-count-too-high", || format!("round {round}: {limit} sessions open, {} slots free; {}", fix.lowlevel_guard.available_connections(), desc()));
+				obs.check(fix.ws_lowlevel().await.is_err(), "c11/attempt-beyond-limit-served", || format!("round {round}: a session beyond the limit was established; {}", desc()));
+				// the server lets go of every session: dropping the future `ws::connect` returned closes the connection
+				for t in fix.lowlevel_conn_tasks.lock().drain(..) {
+					t.abort();
+				}
+				settle().await;
+				let free = fix.lowlevel_guard.available_connections();
+				obs.check(free == limit, "c11/slot-leaked", || format!("round {round}: the server dropped the connection futures of all {limit} sessions (peers still connected); {free} of {limit} slots are free; {}", desc()));
+				for p in peers.iter_mut() {
+					let ev = p.drain();
+					obs.check(ev.iter().any(|e| matches!(e, WsEvent::Closed | WsEvent::Error(_))), "c11/session-dropped-by-server-still-open", || format!("round {round}: the peer saw {ev:?}; {}", desc()));
+				}
+				if !obs.failures.is_empty() {
+					break;
+				}
+			}
+			obs.nontrivial();
+			fix.ctx.gates.release_all();
+			settle().await;
+		});
 	}
 }
